@@ -939,6 +939,13 @@ impl From<TextOutputOptions> for TextPrinter {
             }
 //@@ endfn
 }
+// the csv preset: `, ` between fields, strings in double quotes with an embedded quote doubled, a header row,
+// True / False / null, nothing for an absent value
+pub open spec fn is_csv_preset(r: TextOutputOptions) -> bool {
+    r.headers && r.items_seperator@ == ", "@ && r.string_prefix@ == "\""@ && r.string_postfix@ == "\""@
+        && r.escape_sequance@.len() == 1 && r.escape_sequance@[0]@ == "\"\"\""@
+        && r.null_keyword@ == "null"@ && r.true_keyword@ == "True"@ && r.false_keyword@ == "False"@ && r.missing_value_keyword is None
+}
 impl TextOutputOptions {
 //@@ fn textopts.csv = src/output_style.rs :: impl TextOutputOptions :: fn csv
 //@@ safety C15
@@ -946,15 +953,16 @@ impl TextOutputOptions {
 //@@ rewrite lit_to_string
 //@@ header
         ensures
-            // the csv preset: `, ` between fields, strings in double quotes with an embedded quote doubled, a header row,
-            // True / False / null, nothing for an absent value
-            r.headers && r.items_seperator@ == ", "@ && r.string_prefix@ == "\""@ && r.string_postfix@ == "\""@
-                && r.escape_sequance@.len() == 1 && r.escape_sequance@[0]@ == "\"\"\""@
-                && r.null_keyword@ == "null"@ && r.true_keyword@ == "True"@ && r.false_keyword@ == "False"@ && r.missing_value_keyword is None, // @obl PRINT.text.csv_preset : C15
+            is_csv_preset(r), // @obl PRINT.text.csv_preset : C15
 //@@ endfn
 }
-impl Default for TextOutputOptions { #[verifier::external_body] fn default() -> Self { unimplemented!() } }
-impl Default for JsonOutputOptions { #[verifier::external_body] fn default() -> Self { unimplemented!() } }
+// the derived / hand-written Default of the two option structs: some fixed value (which one is not modelled)
+pub uninterp spec fn default_text_options() -> TextOutputOptions;
+pub uninterp spec fn default_json_options() -> JsonOutputOptions;
+impl Default for TextOutputOptions { #[verifier::external_body] fn default() -> (r: Self) ensures r == default_text_options() { unimplemented!() } }
+impl Default for JsonOutputOptions { #[verifier::external_body] fn default() -> (r: Self) ensures r == default_json_options() { unimplemented!() } }
+pub open spec fn json_opts_of(o: OutputOptions) -> JsonOutputOptions { match o.json_options { Some(j) => j, None => default_json_options() } }
+pub open spec fn text_opts_of(o: OutputOptions) -> TextOutputOptions { match o.text_options { Some(t) => t, None => default_text_options() } }
 impl Clone for TextOutputOptions { #[verifier::external_body] fn clone(&self) -> (r: Self) ensures r == *self { unimplemented!() } }
 impl Clone for JsonOutputOptions { #[verifier::external_body] fn clone(&self) -> (r: Self) ensures r == *self { unimplemented!() } }
 impl TextProcess {
@@ -981,6 +989,13 @@ impl OutputOptions {
             (self.output_style is Json && self.text_options is Some) ==> r is Err, // @obl PRINT.get_processor.json : C18
             // every printer is an eager sink (what unit GO assumes about the terminal stage)
             r is Ok ==> r->Ok_0.inv() && r->Ok_0.eager() && !r->Ok_0.must_break(), // @obl PRINT.get_processor.eager : C03 C09
+            // WHAT the printer will print once started with the selection names t (the `p.sfut(..)` of THY.C03.started_chain_is_the_pipeline):
+            // JSON: one JSON text per row in the configured style, each followed by the row separator
+            r is Ok && self.output_style is Json ==> forall|t: Seq<String>, rows: Seq<Context>| #[trigger] r->Ok_0.sfut(t, rows) == json_rows(json_opts_of(*self), self.row_seperator@, rows), // @obl PRINT.get_processor.json_rows : C03 C02
+            // text / csv: one line per row with exactly |t| fields (the input value itself when there is no selection), printed by a
+            // text printer built from the csv preset / the given or default text options
+            r is Ok && !(self.output_style is Json) ==> exists|pr: TextPrinter| (if self.output_style is Csv { is_csv_preset(pr.opts()) } else { pr.opts() == text_opts_of(*self) })
+                && forall|t: Seq<String>, rows: Seq<Context>| #[trigger] r->Ok_0.sfut(t, rows) == text_rows(pr, t.len() as int, self.row_seperator@, rows), // @obl PRINT.get_processor.text_rows : C03 C15
 //@@ endfn
 }
 
